@@ -31,11 +31,11 @@ func registerCodecs(m map[string]Intrinsic) {
 			name := fmt.Sprintf("%s!%d", kind, k)
 			failV := e.C.Var(name+"!err", 0)
 			e.addInput(st, name+"!err", "bool", failV)
-			return Outcome{Kind: OutAlts, Alts: []AltOut{
+			return Outcome{Kind: OutAlts, Exhaustive: true, Alts: []AltOut{
 				{Cond: e.C.Not(failV), ValFn: func(s2 *State) (Value, bool) {
 					out, cons := e.NewSymStr(name, PayloadCap)
 					for _, cn := range cons {
-						e.assume(s2, cn)
+						e.assumeTrusted(s2, cn)
 					}
 					e.addInput(s2, name, "string", out)
 					return tuple(out, nilIface), true
@@ -65,11 +65,11 @@ func registerCodecs(m map[string]Intrinsic) {
 			name := fmt.Sprintf("%s!%d", kind, k)
 			failV := e.C.Var(name+"!err", 0)
 			e.addInput(st, name+"!err", "bool", failV)
-			return Outcome{Kind: OutAlts, Alts: []AltOut{
+			return Outcome{Kind: OutAlts, Exhaustive: true, Alts: []AltOut{
 				{Cond: e.C.Not(failV), Do: func(s2 *State) bool {
 					out, cons := e.NewSymStr(name, PayloadCap)
 					for _, cn := range cons {
-						e.assume(s2, cn)
+						e.assumeTrusted(s2, cn)
 					}
 					e.addInput(s2, name, "string", out)
 					o := e.tailMethod(s2, w, "Write", []Value{out}, func(_ *State, res Value) Value {
@@ -98,7 +98,7 @@ func registerCodecs(m map[string]Intrinsic) {
 		return func(e *Exec, st *State, ci *CallInfo) Outcome {
 			k := e.codecSeq(st, kind+"dec")
 			failV := e.C.Var(fmt.Sprintf("%sdec!%d!err", kind, k), 0)
-			return Outcome{Kind: OutAlts, Alts: []AltOut{
+			return Outcome{Kind: OutAlts, Exhaustive: true, Alts: []AltOut{
 				{Cond: e.C.Not(failV), Val: nilIface},
 				{Cond: failV, ValFn: func(s2 *State) (Value, bool) {
 					return e.errorValue(s2, kind+": decode error (stub)"), true
@@ -163,9 +163,9 @@ func registerCodecs(m map[string]Intrinsic) {
 			}
 			tok, cons := e.NewSymStr(fmt.Sprintf("enc!%d!%d", idv, nstreams), 2)
 			for _, cn := range cons {
-				e.assume(st, cn)
+				e.assumeTrusted(st, cn)
 			}
-			e.assume(st, e.C.Sge(tok.Len, e.i64(1)))
+			e.assumeTrusted(st, e.C.Sge(tok.Len, e.i64(1)))
 			tok.Enc = &EncInfo{Coding: coding, Payload: chunks, ID: int(idv)}
 			return e.tailMethod(st, dest, "Write", []Value{tok}, func(_ *State, res Value) Value {
 				return res.(*TupleV).E[1]
@@ -185,7 +185,7 @@ func registerCodecs(m map[string]Intrinsic) {
 	m["compress/zlib.NewReader"] = func(e *Exec, st *State, ci *CallInfo) Outcome {
 		k := e.codecSeq(st, "zlibreader")
 		failV := e.C.Var(fmt.Sprintf("zlibreader!%d!err", k), 0)
-		return Outcome{Kind: OutAlts, Alts: []AltOut{
+		return Outcome{Kind: OutAlts, Exhaustive: true, Alts: []AltOut{
 			{Cond: e.C.Not(failV), ValFn: func(s2 *State) (Value, bool) {
 				p := e.newModel(s2, "zlib.reader", map[string]Value{"src": ci.Args[0]})
 				return tuple(&Iface{T: e.namedType("io", "ReadCloser"), V: p}, nilIface), true
